@@ -81,7 +81,7 @@ func runC09(c *core.Ctx) {
 		var prevRaw uint64
 		have, first := false, true
 		viol := 0
-		var count, exactDecisions int64
+		var count, distinct, exactDecisions int64
 		t.forEachChunk(c, func(in []uint64) {
 			if viol > 600 {
 				return
@@ -98,6 +98,9 @@ func runC09(c *core.Ctx) {
 				overlap := first && i == 0 && t.full && t.lo > 0
 				if !overlap {
 					count++
+					if !have || raw != prevRaw {
+						distinct++
+					}
 				}
 				code := dyn.Val{K: st.Kind, I: int64(raw), U: raw}
 				det := func() map[string]any {
@@ -128,7 +131,10 @@ func runC09(c *core.Ctx) {
 					}
 				}
 				if have {
-					if r < prevR {
+					if a == prevA && r != prevR {
+						viol++
+						c.Violate(name+"|position-dependence", caseID, fmt.Sprintf("the same code %v converted to %v and to %v within one buffer", code, prevR, r), det())
+					} else if r < prevR {
 						viol++
 						c.Violate(name+"|order", caseID, fmt.Sprintf("amplitude %d -> %v but the lower amplitude %d -> %v", a, r, prevA, prevR), det())
 					} else if strict && r == prevR && a == prevA+1 {
@@ -136,7 +142,7 @@ func runC09(c *core.Ctx) {
 						// keyed by the higher of the two colliding codes
 						c.Violate(fmt.Sprintf("%s|collision-with-predecessor|%d", name, raw), caseID,
 							fmt.Sprintf("distinct codes %d and %d (amplitudes %d, %d) both -> %v", prevRaw, raw, prevA, a, r), det())
-					} else if strict && r == prevR {
+					} else if strict && r == prevR && a != prevA {
 						viol++
 						c.Violate(name+"|collision", caseID, fmt.Sprintf("distinct amplitudes %d and %d both -> %v", prevA, a, r), det())
 					}
@@ -196,7 +202,11 @@ func runC09(c *core.Ctx) {
 			first = false
 		})
 		c.Eval(count)
-		c.DistinctN(count)
+		if t.rep > 1 {
+			distinct = 0
+			c.Obs("values_in_long_buffers_of_repeated_codes", count)
+		}
+		c.DistinctN(distinct)
 		c.Obs("accuracy_decided_exactly_in_big_rat", exactDecisions)
 		kind := "list"
 		if t.full {
